@@ -3,7 +3,7 @@
 import copy
 import itertools
 import traceback
-from typing import Any, Callable, Dict, List, Optional, Tuple
+from typing import Any, Callable, Dict, List, Optional, Tuple, Union
 
 import pandas as pd
 from pydantic import BaseModel
@@ -812,16 +812,12 @@ class DataFrameSchemaBackend(PandasSchemaBackend):
     @validate_scope(scope=ValidationScope.DATA)
     def check_column_values_are_unique(
         self, check_obj: pd.DataFrame, schema
-    ) -> CoreCheckResult:
+    ) -> Union[CoreCheckResult, List[CoreCheckResult]]:
         """Check that column values are unique."""
-
-        passed = True
-        message = None
-        failure_cases = None
 
         if not schema.unique:
             return CoreCheckResult(
-                passed=passed,
+                passed=True,
                 check="dataframe_column_labels_unique",
             )
 
@@ -833,6 +829,9 @@ class DataFrameSchemaBackend(PandasSchemaBackend):
             if all(isinstance(x, str) for x in schema.unique)
             else schema.unique
         )
+        # every group of columns is checked: one result per group that
+        # contains duplicated rows
+        results: List[CoreCheckResult] = []
         for lst in temp_unique:
             subset = [x for x in lst if x in check_obj]
             if not subset:
@@ -856,14 +855,22 @@ class DataFrameSchemaBackend(PandasSchemaBackend):
                 else:
                     failure_cases = check_obj.loc[duplicates, subset]
 
-                passed = False
-                message = f"columns '{*subset,}' not unique:\n{failure_cases}"
-                failure_cases = reshape_failure_cases(failure_cases)
-                break
+                results.append(
+                    CoreCheckResult(
+                        passed=False,
+                        check="multiple_fields_uniqueness",
+                        reason_code=SchemaErrorReason.DUPLICATES,
+                        message=(
+                            f"columns '{*subset,}' not unique:\n"
+                            f"{failure_cases}"
+                        ),
+                        failure_cases=reshape_failure_cases(failure_cases),
+                    )
+                )
+        if results:
+            return results
         return CoreCheckResult(
-            passed=passed,
+            passed=True,
             check="multiple_fields_uniqueness",
             reason_code=SchemaErrorReason.DUPLICATES,
-            message=message,
-            failure_cases=failure_cases,
         )
